@@ -143,8 +143,10 @@ theorem step_WF (cfg : Cfg) (hinj : ∀ a b, cfg.hash a = cfg.hash b → a = b) 
         have hP := h.pure i p0 hp0
         have hO := h.own i p0 hp0
         obtain ⟨hf, hpp, ho, ht⟩ := raise_ok cfg i p0 g rest s.fs hP hO htodo
-        exact WF_update cfg s _ i p0 (settle (raise { p0 with todo := rest } s.fs g).1) h hp0 rfl rfl
-          (by rw [settle_text]; exact ht) (Pure_settle cfg i _ hpp) hf (OwnTmp_settle cfg _ i _ ho)
+        exact WF_update cfg s _ i p0 (settle { (raise { p0 with todo := rest } s.fs g).1 with faulted := true }) h hp0 rfl rfl
+          (by rw [settle_text]; exact ht)
+          (Pure_settle cfg i _ ⟨hpp.safe, hpp.handle, hpp.dumped, hpp.comp, hpp.rh, hpp.loaded, hpp.outcome⟩) hf
+          (OwnTmp_settle cfg _ i _ ho)
   | kill i =>
     simp only [step]
     split
@@ -155,7 +157,7 @@ theorem step_WF (cfg : Cfg) (hinj : ∀ a b, cfg.hash a = cfg.hash b → a = b) 
       · next g rest htodo =>
         have hP := h.pure i p0 hp0
         have hO := h.own i p0 hp0
-        refine WF_update cfg s _ i p0 { p0 with todo := [], mode := .finished .killed, w := none } h hp0 rfl rfl rfl
+        refine WF_update cfg s _ i p0 { p0 with todo := [], mode := .finished .killed, w := none, faulted := true } h hp0 rfl rfl rfl
           ?_ (Frame_refl _ _ _ _) hO
         refine ⟨⟨?_, ?_, ?_, hP.comp, hP.rh, hP.loaded, ?_⟩, ?_⟩
         · intro hh; exact absurd rfl (hh _)
